@@ -78,12 +78,12 @@ func checkC11(h *harness.H, ci interface{}) *harness.Failure {
 		if c.Scale != nil && c.Scale.Count >= 64 && r.ParseOK == r.ParseOK {
 			r2 := h.Call(0, &wire.Req{Op: "parse", Text: c.Scale.Build(2 * c.Scale.Count)}, 120*time.Second)
 			if r2.Outcome == pool.OK {
-				t1, t2 := time.Duration(r.ParseCPUUs)*time.Microsecond, time.Duration(r2.Resp.ParseCPUUs)*time.Microsecond
+				a1, a2 := r.ParseAllocBytes, r2.Resp.ParseAllocBytes
 				h.S.Count("doubling_probe")
-				if t2 > 150*time.Millisecond && t1 > 0 && float64(t2)/float64(t1) > 3.2 {
+				if a2 > 16<<20 && a1 > 0 && float64(a2)/float64(a1) > 2.6 {
 					super, desc, ok := scalingExperiment(h, c.Scale)
 					if ok && super {
-						return harness.Failf("parsing time grows faster than linearly for %s inputs: %s\ninput: %q", c.Kind, desc, short(c.Text, 300))
+						return harness.Failf("parsing work grows faster than linearly for %s inputs: %s\ninput: %q", c.Kind, desc, short(c.Text, 300))
 					}
 					h.S.Count("doubling_probe_not_confirmed")
 				}
@@ -99,7 +99,7 @@ func checkC11(h *harness.H, ci interface{}) *harness.Failure {
 					return &harness.Failure{Inconclusive: true, Msg: "scaling experiment failed"}
 				}
 				if super {
-					return harness.Failf("parsing time grows faster than linearly for %s inputs: %s\ninput: %q", c.Kind, desc, short(c.Text, 300))
+					return harness.Failf("parsing work grows faster than linearly for %s inputs: %s\ninput: %q", c.Kind, desc, short(c.Text, 300))
 				}
 				h.S.Count("slow_but_linear")
 				return nil
@@ -138,40 +138,34 @@ func checkC11(h *harness.H, ci interface{}) *harness.Failure {
 	return harness.Failf("%s (kind %s, %d bytes)\ninput: %q\nstderr: %s", what, c.Kind, len(c.Text), short(c.Text, 400), harness.Brief(r2.Stderr))
 }
 
-// scalingExperiment parses the shape at n, 2n and 4n three times each in a fresh worker (best
-// CPU time of each). superLinear is true only if the time at least nearly triples at both
-// doublings and the largest parse takes more than 1.5 s: a single jump (cache or GC threshold)
-// is not enough.
+// scalingExperiment parses the shape at n, 2n and 4n in a fresh worker and compares the bytes
+// allocated by the parse, which (unlike wall-clock, process CPU or thread CPU time, all of which
+// were tried and all of which vary with machine load, page-fault cost and GC parallelism) is a
+// function of the input alone. Linear work allocates ~2x at each doubling (the LALR stack doubles
+// geometrically), n log n ~2.1x, quadratic copying ~4x. superLinear is true iff the allocation grows
+// by more than 2.6x at both doublings and the 4n parse allocates more than 64 MB.
 func scalingExperiment(h *harness.H, sc *gen.Scale) (superLinear bool, desc string, ok bool) {
 	w, err := pool.Start(h.Opts())
 	if err != nil {
 		return false, "", false
 	}
 	defer w.Kill()
-	best := func(n int) (time.Duration, bool) {
-		text := sc.Build(n)
-		b := time.Duration(0)
-		for i := 0; i < 3; i++ {
-			res := w.Call(&wire.Req{Op: "parse", Text: text}, 900*time.Second)
-			if res.Outcome != pool.OK {
-				return 0, false
-			}
-			d := time.Duration(res.Resp.ParseCPUUs) * time.Microsecond
-			if b == 0 || d < b {
-				b = d
-			}
+	measure := func(n int) (int64, time.Duration, bool) {
+		res := w.Call(&wire.Req{Op: "parse", Text: sc.Build(n)}, 900*time.Second)
+		if res.Outcome != pool.OK {
+			return 0, 0, false
 		}
-		return b, true
+		return res.Resp.ParseAllocBytes, time.Duration(res.Resp.ParseCPUUs) * time.Microsecond, true
 	}
-	t1, ok1 := best(sc.Count)
-	t2, ok2 := best(2 * sc.Count)
-	t4, ok4 := best(4 * sc.Count)
-	if !ok1 || !ok2 || !ok4 || t1 <= 0 || t2 <= 0 {
+	a1, t1, ok1 := measure(sc.Count)
+	a2, t2, ok2 := measure(2 * sc.Count)
+	a4, t4, ok4 := measure(4 * sc.Count)
+	if !ok1 || !ok2 || !ok4 || a1 <= 0 || a2 <= 0 {
 		return false, "", false
 	}
-	r1, r2 := float64(t2)/float64(t1), float64(t4)/float64(t2)
-	desc = fmt.Sprintf("n=%d: %v, n=%d: %v (x%.1f), n=%d: %v (x%.1f) of CPU time; best of 3 each, measured alone", sc.Count, t1, 2*sc.Count, t2, r1, 4*sc.Count, t4, r2)
-	return t4 > 1500*time.Millisecond && r1 > 2.8 && r2 > 2.8, desc, true
+	r1, r2 := float64(a2)/float64(a1), float64(a4)/float64(a2)
+	desc = fmt.Sprintf("n=%d: %d MB allocated (%v), n=%d: %d MB (x%.1f, %v), n=%d: %d MB (x%.1f, %v); measured in a fresh worker", sc.Count, a1>>20, t1, 2*sc.Count, a2>>20, r1, t2, 4*sc.Count, a4>>20, r2, t4)
+	return a4 > 64<<20 && r1 > 2.6 && r2 > 2.6, desc, true
 }
 
 func TestC11(t *testing.T) {
